@@ -570,6 +570,12 @@ class BitStream(ConstBitStream, bitstring.BitArray):
             self._bitstore = self._bitstore._copy()
             self._bitstore.immutable = False
 
+    def __setattr__(self, attribute, value) -> None:
+        super().__setattr__(attribute, value)
+        # Setting an interpretation (e.g. s.uint8 = 3) replaces the whole content, so make sure the bit position is still valid.
+        if attribute[0] != '_' and self._pos > len(self):
+            self._pos = 0
+
     def __copy__(self) -> BitStream:
         """Return a new copy of the BitStream."""
         s_copy = object.__new__(BitStream)
